@@ -4,7 +4,10 @@ READY = True
 SPEC = {
     "targets": ["Properties/C16.vo", "Run/C16.vo"],
     "theorems": {"Properties.C16": ["C16_one_verdict_per_selector", "C16_present_not_missing", "C16_never_there_is_bug",
-                                    "C16_alerts_answered_from_rules", "C16_nonvacuous"]},
+                                    "C16_rule_kind_matters", "C16_alerts_answered_from_rules",
+                                    "C16_verdict_reflects_database_at_probe_instants", "C16_probe_instants",
+                                    "C16_range_probe_is_unsliced_runs", "C16_disappeared_metric_is_reported",
+                                    "C16_nonvacuous"]},
     "harness_args": lambda tier: ["C16", "--n", 600 if tier == "quick" else 12000],
     "search_args": lambda tier: ["C16", "--n", 1200],
     "level": "proof",
